@@ -66,6 +66,7 @@ import ZygoVerif.Proofs.Tail
 import ZygoVerif.Proofs.TailVM
 import ZygoVerif.Proofs.TailSite
 import ZygoVerif.Proofs.GenBalancedAll
+import ZygoVerif.Proofs.VMRefine
 import ZygoVerif.Model.LegacyTail
 import ZygoVerif.Spec.RefEval
 namespace ZygoVerif.C09
@@ -314,19 +315,10 @@ theorem tail_call_constant_space_partial (body : St → St → Prop) (f np d l a
 
 /-! ### (c) with the balance of the body derived from C04 -/
 
-/-- a data-stack cell as the balance checker sees it: a stack-mark or an ordinary value -/
-def cellOf : Option Val → Bal.Cell
-  | some (.mark l) => .mark l
-  | _ => .val
-
-/-- the state of the stack-effect machine (`Model/StackEffect.lean`) a VM state stands for: the
-pc, the kinds of the cells on the data stack, the depths of the scope and address stacks -/
-def absC (s : St) : Bal.CState := ⟨s.pc.toNat, s.data.map cellOf, s.linear.length, s.addr.length⟩
-
-/-- entry `f` of the function table as the balance checker sees it -/
-def fnB (s : St) (f : Nat) : Bal.Fn :=
-  { kind := .fn, nformals := (fnOf s f).params.length, varargs := (fnOf s f).varargs, nfixed := (fnOf s f).nargs,
-    code := Bal.B s.loops (fnOf s f).code }
+/- `Refine.cellOf`, `Refine.absC`, `Refine.fnB` (Proofs/VMRefine.lean): the state of the stack-effect
+machine a VM state stands for (pc, kinds of the cells on the data stack, depths of the scope and
+address stacks) and entry `f` of the function table as the balance checker sees it. -/
+open ZygoVerif.Refine
 
 /-- The body stretch `E → T` of one activation of `f` as the VM runs it (`vmBody`), **matched by
 a run of the stack-effect machine** of the same function: the function is one the verifier
@@ -335,8 +327,10 @@ with its `np` formals' worth of values on top, it is still the same function at 
 abstraction of `T` is reachable from the abstraction of `E` in the stack-effect machine, and
 `PrepareCall` at the tail site succeeds as a step of that machine. `run` and `prep` are the
 refinement "every `VM.exec` step of an activation is a `Bal.CStep`" (calls as one step, by the
-calling contract) — the part that is NOT proved for the VM model as a whole; `prep_of_fixed`
-below proves `prep` for functions without a rest parameter. -/
+calling contract) — proved instruction by instruction in Proofs/VMRefine.lean
+(`Refine.exec_refines_partial` and the `refines_*` lemmas: every instruction but `callArr`,
+`callExpr`, `ret`), NOT for the VM model as a whole (nested runs); `prep_of_fixed` below proves
+`prep` for functions without a rest parameter, `Refine.refines_prepareCall` in general. -/
 structure MatchedBody (f np : Nat) (E T : St) : Prop where
   vm : vmBody f E T
   verified : ∃ ann, Bal.verify (fnB E f) ann = true
